@@ -53,6 +53,19 @@ def execute(c):
         xyz = [xyz[o] for o in old]
         rad = [rad[o] for o in old]
     tree = mk(pid, xyz, rad)
+    if lib.vid(c) % 4 == 2:
+        # a history: the same tree object was measured while one of its nodes had another radius and position (edited in place through its handle,
+        # then restored in place): what is reported now is the volume of the tree as it is now
+        nd = tree.node(lib.vid(c) % len(t))
+        keep = (float(nd.r), float(nd.x))
+        nd.r, nd.x = keep[0] * 1.5, keep[1] + 0.25 * u
+        for lv in sorted({1, 2, c["level"]}):
+            try:
+                get_volume(tree, accuracy=lv)
+                extract_feature(tree).get("volume", accuracy=lv)
+            except Exception:        # noqa: BLE001 - only the measurement of the restored tree is judged
+                pass
+        nd.r, nd.x = keep
     is_chain = all(sum(1 for row in t if row[0] == i) <= 1 for i in range(len(t)))
     if c["level"] >= 3 and is_chain and lib.vid(c) % 5 == 0:
         v = float(extract_feature(tree).get("volume")[0])          # default accuracy; no pair term on a chain
